@@ -71,7 +71,10 @@ func getDocumentTitle(root *html.Node, wc stringutil.WordCounter) string {
 	// If they had an element with tag "title" in their HTML
 	titleNode := dom.QuerySelector(root, "title")
 	if titleNode != nil {
-		origTitle = domutil.InnerText(titleNode)
+		// As document.title: the text of the element with its white space
+		// collapsed. (InnerText is meant for rendered text, it moves punctuation
+		// and turns its own line break marker into a new line.)
+		origTitle = strings.Join(strings.Fields(dom.TextContent(titleNode)), " ")
 		curTitle = origTitle
 	}
 
